@@ -63,7 +63,7 @@ def inputs(ctx):
                 if l["cues"]:
                     ins.append({"id": "g%d" % n, "k": "option", "via": rng.choice(["vtt", "force"]), "set": s, "name": l["lang"]})
                     n += 1
-    for k in range(200 if ctx.quick else 8000):
+    for k in range(200 if ctx.quick else 30000):
         nl = rng.randrange(1, 5)
         s = []
         x = 0
